@@ -106,7 +106,7 @@ pub fn run(prop: &str, req: &str, rep: &str, outfile: &str) {
                 }
             }
         }
-        "C01" | "C03" | "C04" | "C05" | "C06" | "C08" | "C10" | "C12" | "C20" => {
+        "C01" | "C02" | "C03" | "C04" | "C05" | "C06" | "C08" | "C10" | "C12" | "C20" => {
             let mut w = crate::walk::Walk::new();
             for (i, (q, r)) in reqs.iter().zip(reps.iter()).enumerate() {
                 w.step(i, q, r);
